@@ -1000,9 +1000,9 @@ def read_index_dict_with_version(
         if len(signature) < 4:
             break
 
-        # Check if it's a valid extension signature (4 uppercase letters)
-        # (4 uppercase letters, or the mandatory "sdir" of a sparse index)
-        if not all(65 <= b <= 90 for b in signature) and signature != SDIR_EXTENSION:
+        # An optional extension starts with an upper-case letter (the other
+        # three bytes are free); of the mandatory ones only "sdir" is known
+        if not (65 <= signature[0] <= 90) and signature != SDIR_EXTENSION:
             # Not an extension, seek back
             f.seek(-4, 1)
             break
